@@ -66,6 +66,12 @@ type RateLimiter<T> = governor::RateLimiter<
     governor::clock::DefaultClock,
 >;
 
+/// Run the compact block verifier exactly as `CompactBlockProcess` does.
+#[cfg(ckb_verif)]
+pub fn verif_compact_block_verify(block: &packed::CompactBlock) -> Status {
+    compact_block_verifier::CompactBlockVerifier::verify(block)
+}
+
 #[derive(Debug, Eq, PartialEq)]
 pub enum ReconstructionResult {
     Block(BlockView),
